@@ -383,7 +383,7 @@ func prepareQuery(pc, goal *Term, hints []*Term, refHints []*Term) (newGoal *Ter
 	// the arbitrary element of a slice of pointers the goal talks about (ptrs[k] for the goal's own k) is an
 	// object the callees' `forall x *T` postconditions have to be applied to
 	for _, x := range goalPointerElems(g, sk) {
-		if !seen[x.id] {
+		if !seen[x.id] && os.Getenv("GOVC_PTRELEM") != "off" {
 			seen[x.id] = true
 			refs[x.id] = true
 			consts = append(consts, x)
@@ -447,7 +447,11 @@ func prepareQuery(pc, goal *Term, hints []*Term, refHints []*Term) (newGoal *Ter
 				}
 				return k
 			}
-			sort.SliceStable(hyps, func(a, b int) bool { return cls(hyps[a]) < cls(hyps[b]) })
+			// opt-in (GOVC_INST_ORDER=on): the reordering made one proved obligation of Tx.buildIdxes undecidable for
+			// the solvers (same hypotheses, different order of the instances), so the default keeps the original order
+			if os.Getenv("GOVC_INST_ORDER") == "on" {
+				sort.SliceStable(hyps, func(a, b int) bool { return cls(hyps[a]) < cls(hyps[b]) })
+			}
 		}
 	}
 	for round := 0; round < 2 && len(consts) > 0; round++ {
@@ -570,6 +574,36 @@ func goalPointerElems(g *Term, sk []*Term) []*Term {
 	}
 	walk(g)
 	return out
+}
+
+// slimPC keeps the quantifier-free hypotheses and those quantified hypotheses that mention a heap location
+// (field, element or map heap, in any state) the goal mentions, or no heap location at all (allocation facts,
+// uninterpreted functions). It returns the number of hypotheses dropped.
+func slimPC(pc, goal *Term) (*Term, int) {
+	gf := map[string]bool{}
+	fieldBases(goal, gf, map[int]bool{})
+	var keep []*Term
+	dropped := 0
+	for _, c := range conjuncts(pc) {
+		if !hasQuant(c) {
+			keep = append(keep, c)
+			continue
+		}
+		hf := map[string]bool{}
+		fieldBases(c, hf, map[int]bool{})
+		rel := len(hf) == 0
+		for k := range hf {
+			if gf[k] {
+				rel = true
+			}
+		}
+		if rel {
+			keep = append(keep, c)
+		} else {
+			dropped++
+		}
+	}
+	return And(keep...), dropped
 }
 
 // fieldBases collects the state-independent names of the heap symbols (fields F_, elements E_, maps M_) a term mentions.
